@@ -239,7 +239,7 @@ func suiteC10(c *ctx) {
 		}
 		cases = append(cases, cs)
 	}
-	cases = append(cases, directedFlushCases(r, "C10", c.n(36))...)
+	cases = append(cases, directedFlushCases(r, "C10", c.n(24))...)
 	parallelJ(len(cases), func(i int) interface{} { return cases[i] }, func(i int) { checkHistoryAPI(c.rep, c.pool, cases[i]) })
 	filterViolations(c.rep, func(o string) bool {
 		return isFlushOracle(o) || o == "panic" || o == "unexpected-error" || o == "stream-after-flush"
